@@ -1062,7 +1062,17 @@ impl World {
 			self.violate("C03", "C03-5 contradictory terminal events", msg);
 		}
 		let inc = self.nodes[n].incarnation;
-		if p.ev.sent.iter().filter(|s| s.1 == inc).count() > 1 {
+		// events an earlier incarnation generated and this one inherited, unhandled, in the queue of
+		// the manager snapshot it was loaded from are repeats across a restart, which C03 allows
+		let inherited = self.nodes[n].inherited_terminal.iter().filter(|(id, s)| *s && *id == p.id.0).count();
+		if inherited > 0 {
+			self.out.bump("probe:terminal_event_inherited_in_persisted_queue");
+		}
+		// (... as long as the repeat arrives before the handling of the first copy was persisted)
+		let gens: BTreeSet<u64> =
+			p.ev.sent.iter().zip(p.ev.sent_gen.iter()).filter(|(s, _)| s.1 == inc).map(|(_, g)| *g).collect();
+		let inherited = if gens.len() <= 1 { inherited } else { 0 };
+		if p.ev.sent.iter().filter(|s| s.1 == inc).count() > 1 + inherited {
 			let msg = format!("node {} pay {}: PaymentSent twice without a restart", n, pay);
 			self.violate("C03", "C03-5 terminal event repeated without restart", msg);
 		}
@@ -1104,7 +1114,14 @@ impl World {
 			self.violate("C03", "C03-5 contradictory terminal events", msg);
 		}
 		let inc = self.nodes[n].incarnation;
-		if p.ev.failed.iter().filter(|s| s.1 == inc).count() > 1 {
+		let inherited = self.nodes[n].inherited_terminal.iter().filter(|(id, s)| !*s && *id == p.id.0).count();
+		if inherited > 0 {
+			self.out.bump("probe:terminal_event_inherited_in_persisted_queue");
+		}
+		let gens: BTreeSet<u64> =
+			p.ev.failed.iter().zip(p.ev.failed_gen.iter()).filter(|(s, _)| s.1 == inc).map(|(_, g)| *g).collect();
+		let inherited = if gens.len() <= 1 { inherited } else { 0 };
+		if p.ev.failed.iter().filter(|s| s.1 == inc).count() > 1 + inherited {
 			let outdated = p.paths.iter().any(|x| self.nodes[n].outdated_chans.contains(&x.chans[0]));
 			let earlier = p.paths.iter().any(|x| self.nodes[n].ever_outdated_chans.contains(&x.chans[0]));
 			let ctx = if outdated {
